@@ -14,6 +14,7 @@
 #include <BayesFilters/ExogenousModel.h>
 #include <BayesFilters/ParticleSet.h>
 #include <BayesFilters/any.h>
+#include <BayesFilters/Agent.h>
 #include <memory>
 #include <random>
 
@@ -58,13 +59,14 @@ struct HExo : public ExogenousModel {
 
 // deterministic state model defined here: motion(x) = A x + b
 struct HAff : public StateModel {
-    HAff(const MatrixXd& A, const VectorXd& b, std::size_t lin, std::size_t circ) : A_(A), b_(b), lin_(lin), circ_(circ) {}
+    HAff(const MatrixXd& A, const VectorXd& b, std::size_t lin, std::size_t circ, bool quat = false) : A_(A), b_(b), lin_(lin), circ_(circ), quat_(quat) {}
     void propagate(const Ref<const MatrixXd>& cur, Ref<MatrixXd> prop) override { prop = (A_ * cur).colwise() + b_; }
     void motion(const Ref<const MatrixXd>& cur, Ref<MatrixXd> mot) override { mot = (A_ * cur).colwise() + b_; }
     bool setProperty(const std::string&) override { return false; }
-    VectorDescription getInputDescription() override { return VectorDescription(lin_, circ_); }
-    VectorDescription getStateDescription() override { return VectorDescription(lin_, circ_); }
-    MatrixXd A_; VectorXd b_; std::size_t lin_, circ_;
+    VectorDescription descr() const { return VectorDescription(lin_, circ_, 0, quat_ ? VectorDescription::CircularType::Quaternion : VectorDescription::CircularType::Euler); }
+    VectorDescription getInputDescription() override { return descr(); }
+    VectorDescription getStateDescription() override { return descr(); }
+    MatrixXd A_; VectorXd b_; std::size_t lin_, circ_; bool quat_;
 };
 
 struct HLTIState : public LTIStateModel {
@@ -198,6 +200,96 @@ static std::string wna_trans(Toks& t) {
     return o.str();
 }
 
+// aliasing (same matrix as input and output) and command histories that net to nothing
+static std::string wna_motion_x(Toks& t) {
+    long d = t.nat(); double T = t.dbl(), q = t.dbl(); unsigned int seed = (unsigned int)t.nat();
+    std::string mode = t.tok(); bool exo = t.flag(); long N = t.nat();
+    WNA m(dimOf(d), T, q, seed); Twin tw(seed);
+    long n = m.getStateDescription().total_size();
+    MatrixXd X = t.mat(n, N);
+    if (exo) { MatrixXd G = t.mat(n, n); VectorXd g = t.vec(n); m.add_exogenous_model(std::unique_ptr<ExogenousModel>(new HExo(G, g))); }
+    t.done();
+    MatrixXd out = MatrixXd::Constant(n, N, 4242.0);
+    if (mode == "toggle") {
+        m.skip("state", true); m.skip("state", false);
+        if (exo) { m.skip("exogenous", true); m.skip("exogenous", false); }
+        m.setProperty("reset"); m.setSamplingTime(T);
+        m.motion(X, out);
+    } else if (mode == "alias") {
+        out = X;
+        m.motion(out, out);
+    } else throw vh::BadArgs("mode");
+    MatrixXd Z = tw.mat(n, N);
+    Out o; o.s("ok"); outShaped(o, out); outShaped(o, Z);
+    probeWna(o, d, T, q, n);
+    return o.str();
+}
+
+struct HAgent : public Agent {
+    bool bufferData() override { return true; }
+    Data getData() const override { return Data(); }
+};
+
+// setProperty / setSamplingTime plumbing; every getter queried twice
+static std::string wna_plumb(Toks& t) {
+    long d = t.nat(); double T = t.dbl(), q = t.dbl(), T2 = t.dbl(); t.done();
+    WNA m(dimOf(d), T, q);
+    Out o; o.s("ok");
+    outShaped(o, m.getStateTransitionMatrix()); outShaped(o, m.getNoiseCovarianceMatrix());
+    outShaped(o, m.getStateTransitionMatrix()); outShaped(o, m.getNoiseCovarianceMatrix());
+    o.n(m.setProperty("reset") ? 1 : 0); o.n(m.setProperty("anything") ? 1 : 0);
+    o.n(m.setSamplingTime(T2) ? 1 : 0);
+    outShaped(o, m.getStateTransitionMatrix()); outShaped(o, m.getNoiseCovarianceMatrix());
+    HAgent a; o.n(a.setProperty("reset") ? 1 : 0);
+    long n = m.getStateDescription().total_size();
+    HLTIState l(m.getStateTransitionMatrix(), m.getNoiseCovarianceMatrix());
+    o.n(l.setProperty("reset") ? 1 : 0); o.n(l.setSamplingTime(T2) ? 1 : 0);
+    o.s((vh::same_bits(l.getStateTransitionMatrix(), m.getStateTransitionMatrix()) && l.getNoiseCovarianceMatrix().rows() == n) ? "lti-same" : "lti-changed");
+    return o.str();
+}
+
+// a moved WhiteNoiseAcceleration (move construction, move assignment, use through the base class)
+static std::string wna_move(Toks& t) {
+    long d = t.nat(); double T = t.dbl(), q = t.dbl(); long d2 = t.nat(); double T2 = t.dbl(), q2 = t.dbl();
+    unsigned int seed = (unsigned int)t.nat(); long mode = t.nat(), c1 = t.nat(), c2 = t.nat(); t.done();
+    std::unique_ptr<WNA> a(new WNA(dimOf(d), T, q, seed)); Twin tw(seed);
+    long n = a->getStateDescription().total_size();
+    MatrixXd Y1 = a->getNoiseSample(c1); MatrixXd Z1 = tw.mat(n, c1);
+    std::unique_ptr<StateModel> b;
+    if (mode == 0) b.reset(new WNA(std::move(*a)));
+    else { WNA* w = new WNA(dimOf(d2), T2, q2, seed + 5); w->getNoiseSample(2); *w = std::move(*a); b.reset(w); }
+    a.reset();                                   // the source is gone: the target must own everything it uses
+    LinearStateModel* lb = dynamic_cast<LinearStateModel*>(b.get());
+    Out o; o.s("ok"); o.n(b->getStateDescription().total_size());
+    outShaped(o, lb->getStateTransitionMatrix()); outShaped(o, b->getNoiseCovarianceMatrix());
+    outShaped(o, Y1); outShaped(o, Z1);
+    MatrixXd Y2 = b->getNoiseSample(c2); MatrixXd Z2 = tw.mat(n, c2);
+    outShaped(o, Y2); outShaped(o, Z2);
+    probeWna(o, d, T, q, n);
+    return o.str();
+}
+
+// a moved LTIStateModel: matrices, and what happens to the attached exogenous model / skip flag
+static std::string lti_move(Toks& t) {
+    long n = t.nat(), mode = t.nat(); t.done();
+    MatrixXd F = fillMat(n, n, 1.0), Q = spdMat(n, n);
+    HLTIState a(F, Q);
+    a.add_exogenous_model(std::unique_ptr<ExogenousModel>(new HExo(MatrixXd::Identity(n, n), VectorXd::Ones(n))));
+    a.skip("state", true);
+    Out o; o.s("ok");
+    if (mode == 0) {
+        HLTIState b(std::move(a));
+        o.s((vh::same_bits(b.getStateTransitionMatrix(), F) && vh::same_bits(b.getNoiseCovarianceMatrix(), Q)) ? "stored" : "altered");
+        o.n(b.have_exogenous_model() ? 1 : 0); o.n(b.is_skipping() ? 1 : 0);
+    } else {
+        HLTIState b(MatrixXd::Identity(n + 1, n + 1), MatrixXd::Identity(n + 1, n + 1));
+        b = std::move(a);
+        o.s((vh::same_bits(b.getStateTransitionMatrix(), F) && vh::same_bits(b.getNoiseCovarianceMatrix(), Q)) ? "stored" : "altered");
+        o.n(b.have_exogenous_model() ? 1 : 0); o.n(b.is_skipping() ? 1 : 0);
+    }
+    return o.str();
+}
+
 // ---------------------------------------------------------------- constructors
 
 static std::string lti_state(Toks& t) {
@@ -277,9 +369,9 @@ struct Traj {
 static Traj readTraj(Toks& t) {
     Traj r; std::string kind = t.tok();
     if (kind == "aff") {
-        r.n = t.nat(); r.L = t.nat(); r.lin = t.nat(); r.circ = t.nat();
+        r.n = t.nat(); r.L = t.nat(); r.lin = t.nat(); r.circ = t.nat(); bool quat = t.flag();
         MatrixXd A = t.mat(r.n, r.n); VectorXd b = t.vec(r.n), x0 = t.vec(r.n);
-        r.sim.reset(new SimulatedStateModel(std::unique_ptr<StateModel>(new HAff(A, b, r.lin, r.circ)), x0, (unsigned int)r.L));
+        r.sim.reset(new SimulatedStateModel(std::unique_ptr<StateModel>(new HAff(A, b, r.lin, r.circ, quat)), x0, (unsigned int)r.L));
     } else if (kind == "wna") {
         r.wna = true; r.d = t.nat(); r.T = t.dbl(); r.q = t.dbl(); r.seed = (unsigned int)t.nat(); r.L = t.nat();
         std::unique_ptr<WNA> m(new WNA(dimOf(r.d), r.T, r.q, r.seed));
@@ -337,7 +429,15 @@ static std::string sensor(Toks& t) {
     Out o; o.s("ok");
     VectorDescription id = s->getInputDescription(), md = s->getMeasurementDescription();
     o.n(id.linear_components()); o.n(id.circular_components()); o.n(id.noise_components());
+    o.n(id.circular_type == VectorDescription::CircularType::Quaternion ? 1 : 0); o.n(id.total_size()); o.n(id.dof_size());
     o.n(md.linear_components()); o.n(md.circular_components()); o.n(md.noise_components());
+    o.n(md.circular_type == VectorDescription::CircularType::Quaternion ? 1 : 0); o.n(md.total_size());
+    {   // queries are idempotent
+        VectorDescription id2 = s->getInputDescription(), md2 = s->getMeasurementDescription();
+        bool same = id2.total_size() == id.total_size() && id2.noise_components() == id.noise_components() && md2.total_size() == md.total_size()
+                    && vh::same_bits(s->getMeasurementMatrix(), s->getMeasurementMatrix());
+        o.s(same ? "q-same" : "q-differs");
+    }
     outShaped(o, s->getMeasurementMatrix());
     std::vector<double> draws;
     for (const std::string& op : ops) {
@@ -384,6 +484,14 @@ static std::string grid(Toks& t) {
     bool ok2 = g->initialize(again);
     MatrixXd s3 = again.state(); MatrixXd w3 = again.weight(), w2m = w2;
     o.s((ok2 == ok && vh::same_bits(s2, s3) && vh::same_bits(w2m, w3)) ? "again-same" : "again-differs");
+    // a copy of the initialiser behaves as the original
+    InitSurveillanceAreaGrid cp(*g);
+    g.reset();
+    ParticleSet third(N, R);
+    third.state() = st; third.weight() = w;
+    bool ok3 = cp.initialize(third);
+    MatrixXd s4 = third.state(), w4 = third.weight();
+    o.s((ok3 == ok && vh::same_bits(s2, s4) && vh::same_bits(w2m, w4)) ? "copy-same" : "copy-differs");
     return o.str();
 }
 
@@ -393,6 +501,10 @@ int main() {
         if (op == "wna_samp") { out = wna_samp(t); return true; }
         if (op == "wna_motion") { out = wna_motion(t); return true; }
         if (op == "wna_trans") { out = wna_trans(t); return true; }
+        if (op == "wna_motion_x") { out = wna_motion_x(t); return true; }
+        if (op == "wna_plumb") { out = wna_plumb(t); return true; }
+        if (op == "wna_move") { out = wna_move(t); return true; }
+        if (op == "lti_move") { out = lti_move(t); return true; }
         if (op == "lti_state") { out = lti_state(t); return true; }
         if (op == "lti_meas") { out = lti_meas(t); return true; }
         if (op == "linmodel") { out = linmodel(t); return true; }
